@@ -162,6 +162,9 @@ func (tc *TC) SessionRegCounts(sess int) (tm, rm int) {
 	return st.regTM, st.regRM
 }
 
+// CountOf reports how many requests with the given body code were handled so far.
+func (tc *TC) CountOf(code int) int { return tc.counts[code] }
+
 func (tc *TC) delay() time.Duration {
 	return tc.Lat[tc.Sim.Tape.Choose(len(tc.Lat))]
 }
